@@ -472,6 +472,7 @@ impl Sim {
             Op::ExtraPut(t, k, v) => self.do_extra(i, *t, k, Some(v)),
             Op::ExtraDel(t, k) => self.do_extra(i, *t, k, None),
             Op::TakeRef(id) => self.take_ref(i, id),
+            Op::Get(_) | Op::Has(_) => None,
         };
         if !op.is_modifier() {
             // modifiers apply to the very next op only
